@@ -139,38 +139,52 @@ def rule_repay(ctx: Ctx) -> None:
 def rule_auto_repay(ctx: Ctx) -> None:
     fn = ctx.func(f"{OM}._repay_loans")
     src = ast.unparse(fn.node)
-    # symbol acquired
-    ifs = [n for n in C.walk_shallow(fn.node) if isinstance(n, ast.If) and "OrderOperation.BUY" in ast.unparse(n.test)]
-    oks = False
-    if ifs:
-        t = ifs[0]
-        body = ast.unparse(t.body[0]) if t.body else ""
-        els = ast.unparse(t.orelse[0]) if t.orelse else ""
-        eq = isinstance(t.test, ast.Compare) and isinstance(t.test.ops[0], ast.Eq)
-        oks = eq and body.endswith("order.pair.base_symbol") and els.endswith("order.pair.quote_symbol") and body.split(" = ")[0] == els.split(" = ")[0]
+    from .. import norm as N
+    # symbol acquired: the name compared with loan.borrowed_symbol, and the values it takes under the BUY test
+    cmp_names = [c.comparators[0].id for c in ast.walk(fn.node) if isinstance(c, ast.Compare) and len(c.ops) == 1 and isinstance(c.ops[0], ast.Eq)
+                 and ast.unparse(c.left).endswith(".borrowed_symbol") and isinstance(c.comparators[0], ast.Name)]
+    oks, gv = False, []
+    if cmp_names:
+        gv = N.guarded_values(fn, cmp_names[0])
+        by = {}
+        for t, pol, v in gv:
+            tt = N.canon(t) if t is not None else None
+            if tt in ("order.operation == OrderOperation.BUY", "OrderOperation.BUY == order.operation", "order.operation != OrderOperation.SELL"):
+                by[pol] = N.canon(v)
+            elif tt in ("order.operation == OrderOperation.SELL", "OrderOperation.SELL == order.operation", "order.operation != OrderOperation.BUY"):
+                by[not pol] = N.canon(v)
+            else:
+                by["?"] = tt
+        oks = by == {True: "order.pair.base_symbol", False: "order.pair.quote_symbol"}
     ctx.check(oks, "C11.4", "the symbol whose loans are repaid is the one the order acquired (base for BUY, quote for SELL)", fn,
-              ifs[0] if ifs else fn.node, "BUY -> base, SELL -> quote", "auto-repay targets the wrong symbol")
-    cand = [s for s in A.stores(fn) if isinstance(s.target, ast.Name) and isinstance(s.node, ast.Assign) and isinstance(s.node.value, ast.ListComp)]
-    okc = bool(cand) and "get_loans(is_open=True)" in ast.unparse(cand[0].node.value) and \
-        any("borrowed_symbol ==" in ast.unparse(i) for i in cand[0].node.value.generators[0].ifs)
-    ctx.check(okc, "C11.4", "candidates are the open loans in that symbol", fn, cand[0].stmt if cand else fn.node,
-              "get_loans(is_open=True) filtered by borrowed_symbol", "candidate loans are not the open loans in the acquired symbol")
-    cname = cand[0].target.id if cand else None
-    sorts = [c for c in A.func_calls(fn) if (A.call_name(c) or "") in (f"{cname}.sort", "sorted")]
-    okd = False
-    if sorts:
-        k = A.kw(sorts[0], "key")
-        rev = A.const_value(A.kw(sorts[0], "reverse")) is True
+              fn.node, "BUY -> base, SELL -> quote", "auto-repay targets the wrong symbol", key_text="acquired symbol")
+    # the loop that repays: its iterable, with temporaries expanded, must list the open loans of that symbol in descending principal
+    loops = [n for n in C.walk_shallow(fn.node) if isinstance(n, ast.For)
+             and any((A.call_name(c) or "").endswith("loan_mgr.repay_loan") for s_ in n.body for c in A.calls(s_, shallow=False))]
+    ctx.require(loops, "C11.4: loop that repays the candidate loans not found")
+    lp = loops[0]
+    it = N.expand(fn, lp.iter)
+    it_txt = N.canon(it)
+    okc = "get_loans(is_open=True)" in it_txt and ".borrowed_symbol ==" in it_txt
+    ctx.check(okc, "C11.4", "candidates are the open loans in that symbol", fn, lp.iter,
+              "get_loans(is_open=True) filtered by borrowed_symbol", f"candidate loans are not the open loans in the acquired symbol ({it_txt[:80]})")
+
+    def desc_sort(c: ast.Call) -> bool:
+        k = A.kw(c, "key")
+        rev = A.const_value(A.kw(c, "reverse")) is True
         if isinstance(k, ast.Lambda):
             body = ast.unparse(k.body)
-            okd = (body.endswith(".borrowed_amount") and not body.startswith("-") and rev) or (body.startswith("-") and body.endswith(".borrowed_amount") and not rev)
-    ctx.check(okd, "C11.4", "loans are tried largest principal first", fn, sorts[0] if sorts else fn.node, "sort by borrowed_amount descending",
+            return (body.endswith(".borrowed_amount") and not body.startswith("-") and rev) or \
+                (body.startswith("-") and body.endswith(".borrowed_amount") and not rev)
+        return False
+    sorted_calls = [c for c in ast.walk(it) if isinstance(c, ast.Call) and A.call_name(c) == "sorted"]
+    inplace = []
+    if isinstance(lp.iter, ast.Name):
+        inplace = [c for c in A.func_calls(fn) if (A.call_name(c) or "") == f"{lp.iter.id}.sort" and A.seq(c) < A.seq(lp)]
+    sorts = sorted_calls + inplace
+    okd = any(desc_sort(c) for c in sorts)
+    ctx.check(okd, "C11.4", "loans are tried largest principal first", fn, (inplace[0] if inplace else lp.iter), "sorted by borrowed_amount descending",
               "candidates are not sorted by principal in descending order")
-    loops = [n for n in C.walk_shallow(fn.node) if isinstance(n, ast.For) and A.dotted(n.iter) == cname]
-    ctx.require(loops, "C11.4: loop over the candidate loans not found")
-    lp = loops[0]
-    if sorts:
-        ctx.check(sorts[0].lineno < lp.lineno, "C11.4", "sorting precedes the repayment loop", fn, sorts[0], "ok", "sorted after the loop")
     rps = [c for s in lp.body for c in A.calls(s, shallow=False) if (A.call_name(c) or "").endswith("loan_mgr.repay_loan")]
     ctx.require(rps, "C11.4: repay_loan is not called inside the loop")
     t = next((a for a in A.ancestors(rps[0]) if isinstance(a, ast.Try)), None)
@@ -200,7 +214,7 @@ def rule_interest(ctx: Ctx) -> None:
     ctx.check(key == "self._conditions.interest_symbol", "C11.5", "interest is charged in the configured interest symbol", fn, rets[0], key,
               f"interest keyed by {key}")
     defs = [s for s in A.stores(fn) if isinstance(s.target, ast.Name) and isinstance(val, ast.Name) and s.target.id == val.id]
-    last = sorted(defs, key=lambda s: s.stmt.lineno)[-1] if defs else None
+    last = sorted(defs, key=lambda s: A.seq(s.stmt))[-1] if defs else None
     okm = last is not None and isinstance(last.node, ast.Assign) and isinstance(last.node.value, ast.Call) and A.call_name(last.node.value) == "max" \
         and {ast.unparse(a) for a in last.node.value.args} == {val.id, "self._conditions.min_interest"}
     ctx.check(okm, "C11.5", "the interest is never below the configured minimum (last definition is max(interest, min))", fn,
